@@ -54,6 +54,7 @@ def run(repo, rep, tier):
                keep=lambda f: "namespace" in (f.stmt or ""))
     # an unpickled Count carries a COPY of `identity` as its transform, so `transform is identity` is false for the clone: it takes
     # the general branch of Bin/CentrallyBin/Count._numpy where the original takes the fast one.  Both must do what fill does.
+    rep.borrow(repo, "C03", {"R3.3": ("R11.9", "fill.numpy never writes into the caller's data/weight arrays: clone and original handed the same batch see the same batch", 400)})
     rep.borrow(repo, "C03", {"R3.1": ("R11.5", "the branches of _numpy selected by `transform is identity` (original: fast path, unpickled clone: general path) have the same effect", 300),
                              "R3.7": ("R11.6", "Count._numpy adds the same amount on the identity branch (original) and on the transform branch (unpickled clone)", 8)},
                keep=lambda f: any(f.construct.endswith(x) for x in ("::Bin._numpy", "::CentrallyBin._numpy", "::Count._numpy")))
